@@ -139,7 +139,10 @@ func (_this *sliceBuilder) BuildFromUID(ctx *Context, value []byte, _ reflect.Va
 	return object
 }
 
-func (_this *sliceBuilder) BuildFromArray(ctx *Context, arrayType events.ArrayType, value []byte, _ reflect.Value) reflect.Value {
+func (_this *sliceBuilder) BuildFromArray(ctx *Context, arrayType events.ArrayType, value []byte, dst reflect.Value) reflect.Value {
+	if dst.IsValid() && dst.Type() == _this.dstType && tryBuildIntUintBoolContainerFromArray(ctx, arrayType, value, dst) {
+		return dst
+	}
 	object := _this.newElem()
 	_this.elemGenerator(ctx).BuildFromArray(ctx, arrayType, value, object)
 	_this.storeValue(object)
